@@ -397,8 +397,11 @@ def check_endian(cls, t, lens, args):
         return False
     bm = []
     ref = W.encode(t, v, '<', bmap=bm)
-    if not eq_bytes(le, ref):
-        return True          # little-endian image differs from the reference: C01's business, not asserted here
+    if len(le) != len(ref):
+        return True          # layout differs from the reference: C01's business, not asserted here
+    for i, m in enumerate(bm):
+        if m is not None and le[i] != ref[i]:
+            return True      # a scalar is not where the reference puts it: again a layout matter (C01)
     for i, m in enumerate(bm):
         if m is None:
             if le[i] != 0 or be[i] != 0:
